@@ -59,7 +59,7 @@ type Contracts struct {
 
 var clauseKinds = map[string]bool{"requires": true, "ensures": true, "invariant": true, "returns": true,
 	"fswrite": true, "assume": true, "assert": true, "params": true, "pure": true, "replay": true, "sweep": true,
-	"decreases": true, "opt": true, "frame": true, "impure": true, "guide": true, "at-call": true, "havocs": true, "fsread": true}
+	"decreases": true, "opt": true, "frame": true, "impure": true, "guide": true, "at-call": true, "ghost": true, "sets": true, "havocs": true, "fsread": true}
 
 var propRe = regexp.MustCompile(`^C[0-9]{2,3}$`)
 
@@ -238,7 +238,7 @@ func (cs *Contracts) parseContractFile(file string, repo bool, pkgPath string) e
 					c.Callee = rest[:i]
 					rest = strings.TrimSpace(rest[i+1:])
 				}
-				if word == "returns" || word == "fswrite" || word == "fsread" || word == "havocs" {
+				if word == "returns" || word == "fswrite" || word == "fsread" || word == "havocs" || word == "ghost" || word == "sets" {
 					c.Expr = rest
 				} else {
 					c.Label, c.Expr = splitLabel(rest)
